@@ -67,9 +67,15 @@ def dedupDots : List Char → List Char
 def pnPieces (s : List Char) : List (List Char) :=
   splitOn '.' (dedupDots (stripPN (subCross s)))
 
-/-- One piece → one change; `"-"` is the cross `[]`. `none` = `ValueError`. -/
+/-- ASCII part of `str.upper()` (the translator checks that no non-ASCII character upper-cases to a
+bell name). -/
+def upperAscii (c : Char) : Char :=
+  if 'a' ≤ c ∧ c ≤ 'z' then Char.ofNat (c.toNat - 32) else c
+
+/-- One piece → one change; `"-"` is the cross `[]`; every symbol is upper-cased before it is looked
+up (`convert_bell_string(y.upper())`). `none` = `ValueError`. -/
 def convertPiece (p : List Char) : Option Places :=
-  if p = ['-'] then some [] else bellsOfString p
+  if p = ['-'] then some [] else bellsOfString (p.map upperAscii)
 
 def startsWith (c : Char) : List Char → Bool
   | d :: _ => d = c
@@ -89,11 +95,6 @@ def convertPN (s : List Char) : Option (List Places) :=
     | none => none
     | some bs => some bs.flatten
   else convertBlock s false
-
-/-- ASCII part of `str.upper()` (the translator checks that no non-ASCII character upper-cases to a
-bell name). -/
-def upperAscii (c : Char) : Char :=
-  if 'a' ≤ c ∧ c ≤ 'z' then Char.ofNat (c.toNat - 32) else c
 
 /-- Is `y.upper() in BELL_NAMES`?  `upperBell` abstracts the interpreter's `str.upper`. -/
 def validPiece (up : Char → Char) (p : List Char) : Bool :=
